@@ -21,6 +21,7 @@ LEVEL_TEXT += (' (E3.kind) set literals / comprehensions build only set values a
 
 
 LEVEL_TEXT += (' (E3.all) element loops of both interpreters reach the successful return only through the exhausted iterator (`if` excepted).')
+LEVEL_TEXT += (' The attribute loops of `attr` statements and shorthands hand every attribute to Attribute::execute / execute_lazy in both modes.')
 def _report(rep, rule, f, feats, problems, ids):
     seen = set()
     for fid, msg in problems:
@@ -212,6 +213,10 @@ def run(prog, rep):
     from ..engines import e5_writers as e5
     e5.mutability_flags(prog, rep)
     from ..engines import e3_driver
+    from ..lib.report import Filtered
+    nb0 = len(rep.items)
+    e3_driver.run_driver(prog, Filtered(rep, lambda rule, key: "attributes through Attribute::" in key or "attributes in order" in key))
+    rep.floor("C01.D", len(rep.items) - nb0, 4, "attribute loops of the attribute statements and shorthands (both modes)")
     na = e3_driver.element_loops_complete(prog, rep)
     rep.floor("E3.all", na, 16, "element loops of the interpreters")
     # panic where the other mode has an error: no undischarged panic site in the lazy interpreter
